@@ -1,7 +1,7 @@
 (* C15 - trigonometric gateways.  Pinned theorems only. *)
 From Coq Require Import ZArith List Bool Reals Lra.
 From Flocq Require Import Core BinarySingleNaN.
-Require Import GV.FloatBase GV.FloatLemmas GV.AngleM GV.AngleProofs GV.GeonumM GV.GeonumProofs GV.TraitsM GV.NewProofs GV.CtorProofs GV.PiBounds GV.TrigProofs GV.DotValue GV.DistValue GV.DirProofs GV.SymProofs.
+Require Import GV.FloatBase GV.FloatLemmas GV.AngleM GV.AngleProofs GV.GeonumM GV.GeonumProofs GV.TraitsM GV.NewProofs GV.CtorProofs GV.PiBounds GV.TrigProofs GV.DotValue GV.DistValue GV.DirProofs GV.SymProofs GV.ClosureProofs GV.SwapProofs.
 Open Scope R_scope.
 
 (* cos: |value| at blade 0 / 2; sin: |value| at blade 1 / 3; remainder exactly 0; for EVERY libm *)
@@ -54,3 +54,16 @@ Theorem C15_pythagoras : forall (L : libm) (u : R) a, cos_acc L u -> sin_acc L u
   Rabs (R_ c * R_ c + R_ s * R_ s - 1) <= 5 * (u + 25 / 10000000000000000).
 Proof. exact pythagoras. Qed.
 Print Assumptions C15_pythagoras.
+
+(* adj and opp carry |g||cos(dir)| and |g||sin(dir)| in magnitude within |g|(u + 3e-15) + 2^-1075 *)
+Theorem C15_adj_value : forall (L : libm) (u : R) g, cos_acc L u -> u <= / 1000 -> canonp (rem (ang g)) -> fin (mag (adj L g)) ->
+  Rabs (R_ (mag (adj L g)) - Rabs (R_ (mag g)) * Rabs (cos (dir (ang g))))
+    <= Rabs (R_ (mag g)) * (u + 3 / 1000000000000000) + bpow radix2 (-1075).
+Proof. exact adj_mag_value. Qed.
+Print Assumptions C15_adj_value.
+
+Theorem C15_opp_value : forall (L : libm) (u : R) g, sin_acc L u -> u <= / 1000 -> canonp (rem (ang g)) -> fin (mag (opp L g)) ->
+  Rabs (R_ (mag (opp L g)) - Rabs (R_ (mag g)) * Rabs (sin (dir (ang g))))
+    <= Rabs (R_ (mag g)) * (u + 3 / 1000000000000000) + bpow radix2 (-1075).
+Proof. exact opp_mag_value. Qed.
+Print Assumptions C15_opp_value.
